@@ -216,6 +216,10 @@ def _cases():
             c.assume(ax)
         return npshim.deg2rad(sym(c, np.array([0.0, 90.0]))), np.deg2rad(np.array([0.0, 90.0]))
     C.append(('deg2rad', deg2rad_case))
+    _ed = np.array([1.0, 2.0, 3.5])
+    _vv = np.array([0.5, 1.0, 1.5, 2.0, 3.5, 9.0])
+    C.append(('searchsorted-left', lambda c: (npshim.searchsorted(sym(c, _ed), sym(c, _vv)), np.searchsorted(_ed, _vv))))
+    C.append(('searchsorted-right', lambda c: (npshim.searchsorted(sym(c, _ed), sym(c, _vv), side='right'), np.searchsorted(_ed, _vv, side='right'))))
     C.append(('arange-step', lambda c: (npshim.arange(0, 360, 51), np.arange(0, 360, 51))))
     C.append(('arange-negative-step', lambda c: (npshim.arange(5, -3, -2), np.arange(5, -3, -2))))
     C.append(('arange-step-empty', lambda c: (npshim.arange(4, 4, 3), np.arange(4, 4, 3))))
